@@ -514,6 +514,23 @@ def family_run(tier, seed):
                                      "nogc": nogc, "excluded": [],
                                      "note": f"witness {wname}: rejected at event {at}: {errs[:200]}"})
         os.remove(tpath)
+    # ---------------- server level: several real spawn_chitchat loops on a controlled transport
+    for (k, ntr, nsteps) in ([(3, 12, 120), (2, 8, 100)] if tier == "quick" else [(3, 150, 150), (2, 60, 120), (4, 40, 150)]):
+        tpath = tmp(f"srvcl_{k}_{os.getpid()}.ndjson")
+        with open(tpath, "w") as fh:
+            p = subprocess.run([vlib.harness_bin("server"), "cluster", str(seed * 100 + k), str(ntr), str(k), str(nsteps)],
+                               stdout=fh)
+        if p.returncode != 0:
+            raise vlib.ToolError("server cluster driver failed")
+        over = {"Grace": 4, "PhiN": 4, "PhiD": 1, "Window": 3, "MaxInterval": 10, "Prior": 3, "DeadGrace": 12}
+        total, nev, acc, rej = validate_batch(tpath, trace_constants(over), f"srvcl{k}_{os.getpid()}", False)
+        fam["conform"] += acc
+        fam["drivers"][f"server_cluster_{k}"] = {"traces": total, "events": nev, "accepted": acc, "rejected": len(rej)}
+        for (lines, at, errs) in rej:
+            fam["divergent"].append({"lines": lines, "over": jsonable(over), "hcfg": {"server_cluster": k}, "steps": [],
+                                     "nogc": False, "excluded": [],
+                                     "note": f"server-level cluster of {k} real loops: rejected at event {at}: {errs[:200]}"})
+        os.remove(tpath)
     with open(cpath + ".part", "w") as fh:
         json.dump(fam, fh)
     os.replace(cpath + ".part", cpath)
@@ -649,6 +666,15 @@ def run(prop, tier, seed, replay=None):
         if obj.get("kind") == "agreement-case":
             from checks import agreement
             return agreement.run(prop, tier, seed, replay=replay)
+        if obj.get("kind") == "server-cluster-trace":
+            # recorded from real server loops (scheduling is not re-driven step by step): re-judge the record
+            consts = trace_constants(unjson(obj.get("consts", {})))
+            inv, props = prop_formulas(prop, False)
+            for (_, formula, at) in observe([obj["lines"]], consts, inv, props, "replay"):
+                res.violation(obj, f"{formula} fails at event {at}")
+            res.coverage = {"states": 1, "transitions": len(obj["lines"]), "traces_validated_against_impl": 1,
+                            "samples": [json.loads(obj["lines"][1])]}
+            return res.finish()
         tpath = tmp("replay.ndjson")
         run_harness(["trace", json.dumps(obj["hcfg"])],
                     stdin_text=json.dumps({"steps": obj["steps"]}) + "\n", out_path=tpath)
@@ -678,11 +704,13 @@ def run(prop, tier, seed, replay=None):
         props = [f for f in props if f not in excl]
         v = observe([it["lines"] for it in items], consts, inv, props, f"{prop}_g{gi}")
         for (ti, formula, at) in v:
-            res.violation({"kind": "gossip-trace", "hcfg": hcfg, "consts": jsonable(over),
-                           "steps": items[ti]["steps"], "formula": formula, "nogc": nogc},
-                          f"{formula} fails on a real execution (event {at})")
+            obj = {"kind": "gossip-trace", "hcfg": hcfg, "consts": jsonable(over),
+                   "steps": items[ti]["steps"], "formula": formula, "nogc": nogc}
+            if "server_cluster" in hcfg:
+                obj.update(kind="server-cluster-trace", lines=items[ti]["lines"])
+            res.violation(obj, f"{formula} fails on a real execution (event {at})")
         if not v:
-            pre = [it["steps"] for it in items[:6] if it["steps"]]
+            pre = [it["steps"] for it in items[:6] if it["steps"]] if "server_cluster" not in hcfg else []
             if pre:
                 pfile = tmp(f"prefix_{prop}_{gi}.json")
                 with open(pfile, "w") as fh:
